@@ -143,10 +143,11 @@ def main():
     hvsrpy = import_hvsrpy()
     quick = run.quick
     nw, alpha, alpha_n = (3, "Alpha6a", 6) if quick else (4, "Alpha6", 8)
-    # 1. design level: all histories, invariants
-    mc = hvsrobj.cfg_text(1, nw, 6, alpha, "Ranges6", "NSetA", "MaxItsA", "InitSorted", export=False,
+    # 1. design level: all histories, invariants (quick: every window multiset over 6 curves, 3 windows;
+    #    thorough: a seeded 1/60 of the 4096 ordered assignments of 4 windows over 8 curves)
+    mc = hvsrobj.cfg_text(1, nw, 6, alpha, "Ranges6", "NSetA", "MaxItsA", "InitSorted" if quick else "InitEnv", export=False,
                           invariants=["TypeOK", "PeaksCurrent", "AccFnHavePeaks"], props=["TdStep", "CurvesFixed"])
-    res, _ = hvsrobj.export_graph(mc, "C05-mc", {}, timeout=2400)
+    res, _ = hvsrobj.export_graph(mc, "C05-mc", {"VERIF_K": 60, "VERIF_SEED": run.seed}, timeout=3600)
     run.add_tlc(res, "HvsrObject exhaustive (I tier), invariants TypeOK/PeaksCurrent/AccFnHavePeaks/TdStep/CurvesFixed")
     # 1b. the implementation-shaped accessor (estimator over the mask, blind to missing peaks) agrees with the
     #     property iff NoPeaklessAccepted; TLC must find the history that breaks it (non-vacuity of the model)
@@ -160,7 +161,7 @@ def main():
     if nres.violated != "NoPeaklessAccepted":
         raise hvsrobj.MachineryError("negative configuration did not produce the expected counterexample")
     # 2. export + replay
-    k = 40 if quick else 6
+    k = 40 if quick else 400
     ex = hvsrobj.cfg_text(1, nw, 6, alpha, "Ranges6", "NSetA", "MaxItsA", "InitEnv", export=True)
     res, graph = hvsrobj.export_graph(ex, "C05-export", {"VERIF_K": k, "VERIF_SEED": run.seed}, timeout=2400)
     run.add_tlc(res, f"HvsrObject export, initial assignments with hash bucket {run.seed} mod {k}")
